@@ -347,6 +347,7 @@ func (x *engRun) step(ws []string) (out string) {
 			if e2 != nil {
 				return "err " + errTok(e2)
 			}
+			nops := 0
 			for _, o := range parseEngOps(ws[2:]) {
 				k, v := unhx(o[1]), unhx(o[2])
 				if o[0] == "d" {
@@ -363,6 +364,13 @@ func (x *engRun) step(ws []string) (out string) {
 				}
 				if err != nil {
 					break
+				}
+				// reading the transaction's own view between its writes changes nothing about what it commits (an iterator over the
+				// write set is opened and drained after every other write: a cached, stale write set would be committed)
+				if nops++; nops%2 == 1 {
+					it := tx.NewIterator()
+					for it.SeekToFirst(); it.Valid(); it.Next() {
+					}
 				}
 			}
 			if err == nil {
